@@ -12,6 +12,9 @@ ids = [a for a in args[1:] if not a.startswith("--") and a[0] == "C"]
 seed = args[args.index("--seed") + 1] if "--seed" in args else "1"
 tier = args[args.index("--tier") + 1] if "--tier" in args else "quick"
 assert subprocess.run(["git", "-C", "/repo", "status", "--porcelain"], stdout=subprocess.PIPE, text=True).stdout.strip() == "", "/repo not clean"
+import shutil, tempfile
+_evbak = tempfile.mkdtemp(prefix="evbak_", dir="/verif/work")
+shutil.copytree("/verif/evidence", _evbak + "/evidence")  # evidence written while a seeded change is applied is not evidence
 r = subprocess.run(["git", "-C", "/repo", "apply", patch])
 if r.returncode != 0:
     print("patch does not apply")
@@ -31,5 +34,6 @@ try:
         for l in err:
             print("   ", l[:200])
 finally:
+    shutil.rmtree("/verif/evidence"); shutil.copytree(_evbak + "/evidence", "/verif/evidence"); shutil.rmtree(_evbak)
     subprocess.run(["git", "-C", "/repo", "checkout", "--", "."])
     subprocess.run(["git", "-C", "/repo", "clean", "-fdq", "--", "starlark/tests", "starlark_map/tests", "starlark_syntax/tests", "starlark_lsp/tests"])
